@@ -259,13 +259,25 @@ type scriptedFetcher struct {
 	mu  sync.Mutex
 	m   map[string]*fetchBehaviour
 	log []string
+	onFirst func() // called when the first fetch arrives (used to cancel mid-flight)
+	calls int
 }
 
 func (f *scriptedFetcher) Fetch(ctx context.Context, u string) (*corecrl.Bundle, error) {
 	f.mu.Lock()
 	f.log = append(f.log, u)
 	b := f.m[u]
+	f.calls++
+	first := f.calls == 1
+	on := f.onFirst
 	f.mu.Unlock()
+	if first && on != nil {
+		on()
+	}
+	// like the real HTTP fetcher, a cancelled context makes the download fail
+	if err := ctx.Err(); err != nil {
+		return nil, err
+	}
 	if b == nil {
 		return nil, errors.New("scripted fetcher: unknown url")
 	}
@@ -361,6 +373,9 @@ func (t *scriptedTransport) RoundTrip(req *http.Request) (*http.Response, error)
 	if arrive != nil {
 		arrive(key)
 	}
+	if err := req.Context().Err(); err != nil {
+		return nil, err
+	}
 	if b == nil {
 		return nil, errors.New("scripted transport: no such server " + req.URL.String())
 	}
@@ -415,6 +430,7 @@ type OCSPSpec struct {
 	NoCheck    bool   // add pkix-ocsp-nocheck single extension (ignored by the code)
 	Signer     *Issued // key that signs
 	Embed      *x509.Certificate // embedded responder certificate (nil: none)
+	ResponderIDOf *x509.Certificate // certificate whose subject is put into the ResponderID (default: the signer's)
 	CorruptSig bool
 }
 
@@ -447,7 +463,11 @@ func buildOCSP(issuer *Issued, spec OCSPSpec) []byte {
 	if spec.Embed != nil {
 		tmpl.Certificate = spec.Embed
 	}
-	der, err := ocsp.CreateResponse(issuer.Cert, signer.Cert, tmpl, signer.Key.Priv)
+	idCert := signer.Cert
+	if spec.ResponderIDOf != nil {
+		idCert = spec.ResponderIDOf
+	}
+	der, err := ocsp.CreateResponse(issuer.Cert, idCert, tmpl, signer.Key.Priv)
 	if err != nil {
 		panic(fmt.Sprintf("ocsp.CreateResponse: %v", err))
 	}
